@@ -2795,15 +2795,20 @@ def _decode_private(
 
     key: Optional[SSHKey]
 
-    if fmt == 'der':
-        key = _decode_der_private(key_info[0], passphrase,
-                                  unsafe_skip_rsa_key_validation)
-    elif fmt == 'pem':
-        pem_name, headers, data = key_info
-        key = _decode_pem_private(pem_name, headers, data, passphrase,
-                                  unsafe_skip_rsa_key_validation)
-    else:
-        key = None
+    try:
+        if fmt == 'der':
+            key = _decode_der_private(key_info[0], passphrase,
+                                      unsafe_skip_rsa_key_validation)
+        elif fmt == 'pem':
+            pem_name, headers, data = key_info
+            key = _decode_pem_private(pem_name, headers, data, passphrase,
+                                      unsafe_skip_rsa_key_validation)
+        else:
+            key = None
+    except (KeyImportError, KeyEncryptionError):
+        raise
+    except (ValueError, OverflowError):
+        raise KeyImportError('Invalid private key') from None
 
     return key, end
 
@@ -2815,33 +2820,38 @@ def _decode_public(data: bytes) -> Tuple[Optional[SSHKey], Optional[int]]:
 
     key: Optional[SSHKey]
 
-    if fmt == 'der':
-        key = _decode_der_public(key_info[0])
-    elif fmt == 'pem':
-        pem_name, _, data = key_info
-        key = _decode_pem_public(pem_name, data)
-    elif fmt == 'openssh':
-        algorithm, comment, data = key_info
-        key = decode_ssh_public_key(data)
+    try:
+        if fmt == 'der':
+            key = _decode_der_public(key_info[0])
+        elif fmt == 'pem':
+            pem_name, _, data = key_info
+            key = _decode_pem_public(pem_name, data)
+        elif fmt == 'openssh':
+            algorithm, comment, data = key_info
+            key = decode_ssh_public_key(data)
 
-        if algorithm != key.algorithm:
-            raise KeyImportError('Public key algorithm mismatch')
+            if algorithm != key.algorithm:
+                raise KeyImportError('Public key algorithm mismatch')
 
-        key.set_comment(comment)
-    elif fmt == 'rfc4716':
-        comment, data = key_info
-        key = decode_ssh_public_key(data)
-        key.set_comment(comment)
-    else:
-        fmt, key_info, end = _match_next(data, b'PRIVATE KEY')
-
-        if fmt == 'pem' and key_info[0] == b'OPENSSH':
-            key = _decode_openssh_public(key_info[2])
+            key.set_comment(comment)
+        elif fmt == 'rfc4716':
+            comment, data = key_info
+            key = decode_ssh_public_key(data)
+            key.set_comment(comment)
         else:
-            key, _ = _decode_private(data, None, False)
+            fmt, key_info, end = _match_next(data, b'PRIVATE KEY')
 
-            if key:
-                key = key.convert_to_public()
+            if fmt == 'pem' and key_info[0] == b'OPENSSH':
+                key = _decode_openssh_public(key_info[2])
+            else:
+                key, _ = _decode_private(data, None, False)
+
+                if key:
+                    key = key.convert_to_public()
+    except (KeyImportError, KeyEncryptionError):
+        raise
+    except (ValueError, OverflowError):
+        raise KeyImportError('Invalid public key') from None
 
     return key, end
 
